@@ -402,6 +402,7 @@ func (e *Exec) mapLookup(st *State, m *MapV, key Value, elem types.Type) (Value,
 	if m.Obj == 0 {
 		return zero, e.ts.False
 	}
+	key = e.substConc(st, key)
 	md := e.getObject(st, m.Obj).V.(*MapData)
 	// all-concrete fast path
 	val := zero
@@ -457,6 +458,46 @@ func (e *Exec) someSymbolicPart(v Value) *term.Term {
 		}
 	}
 	return nil
+}
+
+// substConc replaces scalar terms that were concretised on this path by their constants.
+func (e *Exec) substConc(st *State, v Value) Value {
+	if len(st.conc) == 0 {
+		return v
+	}
+	switch x := v.(type) {
+	case *term.Term:
+		if !x.IsConst() {
+			if c, ok := st.conc[x.ID]; ok {
+				return e.ts.Const(x.W, c)
+			}
+		}
+	case *StringV:
+		if x.B != nil {
+			bs := make([]*term.Term, len(x.B))
+			for i, b := range x.B {
+				bs[i] = e.substConc(st, b).(*term.Term)
+			}
+			return e.mkString(bs)
+		}
+	case *StructV:
+		nf := make([]Value, len(x.F))
+		for i, f := range x.F {
+			nf[i] = e.substConc(st, f)
+		}
+		return &StructV{F: nf}
+	case *ArrayV:
+		nf := make([]Value, len(x.E))
+		for i, f := range x.E {
+			nf[i] = e.substConc(st, f)
+		}
+		return &ArrayV{E: nf}
+	case *IfaceV:
+		if x.T != nil {
+			return &IfaceV{T: x.T, V: e.substConc(st, x.V)}
+		}
+	}
+	return v
 }
 
 func (e *Exec) concreteKey(st *State, key Value) Value {
@@ -611,6 +652,7 @@ func (e *Exec) harnessIntrinsic(st *State, f *Frame, fn *ssa.Function, args []Va
 	name := fn.Name()
 	switch {
 	case strings.HasPrefix(name, "nondet"):
+		e.needVerified(st)
 		rt := fn.Signature.Results().At(0).Type()
 		w, _, ok := intWidth(rt)
 		if !ok {
@@ -643,8 +685,29 @@ func (e *Exec) harnessIntrinsic(st *State, f *Frame, fn *ssa.Function, args []Va
 			unsupported("verifParam(%q) not supplied", pn)
 		}
 		return e.ts.Const(64, uint64(int64(v))), true
+	case name == "verifChoice":
+		if st.choice != nil {
+			k := *st.choice
+			st.choice = nil
+			return e.ts.Const(64, k), true
+		}
+		n := e.concreteInt(st, args[0])
+		if n <= 0 {
+			panic(&execPanic{kind: "infeasible", msg: "verifChoice(0)"})
+		}
+		if n == 1 {
+			// still consumes a witness slot so that replay stays aligned
+			v := e.newNondet(st, 64, "choice")
+			st.addPC(e.ts.Eq(v, e.ts.Const(64, 0)))
+			return e.ts.Const(64, 0), true
+		}
+		panic(&choiceReq{n})
 	case name == "verifWitnessMode":
 		return e.ts.Bool(e.cfg.Witness), true
+	case name == "verifB2I":
+		return e.ts.Ite(args[0].(*term.Term), e.ts.Const(64, 1), e.ts.Const(64, 0)), true
+	case name == "verifIte":
+		return e.ts.Ite(args[0].(*term.Term), args[1].(*term.Term), args[2].(*term.Term)), true
 	case name == "verifConcretize":
 		t := args[0].(*term.Term)
 		return e.ts.Const(t.W, e.concrete(st, t)), true
@@ -680,6 +743,7 @@ func (e *Exec) assume(st *State, c *term.Term) {
 	if c.IsTrue() {
 		return
 	}
+	e.needVerified(st)
 	if c.IsFalse() {
 		panic(&execPanic{kind: "infeasible", msg: "assumption false"})
 	}
@@ -687,7 +751,7 @@ func (e *Exec) assume(st *State, c *term.Term) {
 	if e.ts.Eval(c, st.witness) != 0 {
 		return
 	}
-	res, m := e.check(st, e.ts.True)
+	res, m := e.checkW(st, "assume", e.ts.True)
 	switch res {
 	case smt.Sat:
 		st.witness = m
@@ -710,13 +774,14 @@ func (e *Exec) assert(st *State, c *term.Term, id string) {
 		as.Trivial++
 		return
 	}
+	e.needVerified(st)
 	neg := e.ts.Not(c)
 	var res smt.Result
 	var m *term.Model
 	if e.ts.Eval(neg, st.witness) != 0 {
 		res, m = smt.Sat, st.witness
 	} else {
-		res, m = e.check(st, neg)
+		res, m = e.checkW(st, "assert", neg)
 	}
 	switch res {
 	case smt.Unsat:
@@ -734,7 +799,7 @@ func (e *Exec) assert(st *State, c *term.Term, id string) {
 	// continue with the assertion assumed, if possible
 	st.addPC(c)
 	if e.ts.Eval(c, st.witness) == 0 {
-		r2, m2 := e.check(st, e.ts.True)
+		r2, m2 := e.checkW(st, "assert-cont", e.ts.True)
 		if r2 == smt.Sat {
 			st.witness = m2
 		} else {
